@@ -28,6 +28,9 @@ def module_path(dotted):
     """batchie.scoring.main -> /repo/src/batchie/scoring/main.py ; 'nextflow.scripts.batchie' special."""
     if dotted == "nextflow_script":
         return os.path.join(REPO, "nextflow", "scripts", "batchie.py")
+    if dotted.startswith("scenarios"):
+        # property-level scenario drivers (harness code under /verif/scenarios calling the real functions)
+        return os.path.join(os.path.dirname(os.path.dirname(os.path.abspath(__file__))), *dotted.split(".")) + ".py"
     p = os.path.join(SRC, *dotted.split("."))
     if os.path.isdir(p):
         return os.path.join(p, "__init__.py")
@@ -156,6 +159,9 @@ def split_qualname(qualname):
     """'batchie.scoring.main.ChunkedScoresHolder.add_score' -> (module dotted, 'ChunkedScoresHolder.add_score')"""
     if qualname.startswith("nextflow_script."):
         return "nextflow_script", qualname[len("nextflow_script."):]
+    if qualname.startswith("scenarios."):
+        parts = qualname.split(".")
+        return ".".join(parts[:2]), ".".join(parts[2:])
     parts = qualname.split(".")
     for i in range(len(parts), 0, -1):
         d = ".".join(parts[:i])
@@ -173,6 +179,8 @@ def find(qualname):
 
 
 def is_repo_module(dotted):
+    if dotted.startswith("scenarios."):
+        return os.path.isfile(module_path(dotted))
     if not dotted.startswith("batchie"):
         return False
     return os.path.isfile(module_path(dotted))
